@@ -21,6 +21,7 @@ func init() {
 		ID:      "C07",
 		Arch386: true,
 		Explanation: "T18 every call into go-sev-guest's certificate-table parser (CertTable.Unmarshal, ReportCertsToProto) is dominated by the nil edge of extractsev.CheckCertTable over bytes of the same input (F24). " +
+			"T26 a constant slice bound or index on a slice that is a call result or a field value (x.GetSignature()[:8]) needs len ≥ that constant established for that very slice. " +
 			"T25 an integer division or remainder by a non-constant happens only behind a dominating condition on that very value that excludes zero. " +
 			"T24 a conversion of a slice to an array or array pointer ([N]T(x)) happens only where len(x) ≥ N is established for that slice (by construction, by a dominating condition, or by every caller of an unexported helper): a shorter value panics. " +
 			"T23 (= C16.R8/R9) optional evidence sources are nil-tested before use and never wrapped or manufactured by the extraction library. " +
@@ -264,6 +265,7 @@ func runC07(c *Ctx) {
 	// (none on the present tree: the canary mutant C07-mrtd-converted-to-array must fire)
 	c.S.OK("T24", "relying-party closure:slice-to-array conversions", "", fmt.Sprintf("%d conversions of a slice to an array examined", c.sliceToArrayRule("T24", fns)), false)
 	c.S.OK("T25", "relying-party closure:divisions by a non-constant", "", fmt.Sprintf("%d integer divisions or remainders by a non-constant examined", c.divisorRule("T25", fns)), false)
+	c.S.OK("T26", "relying-party closure:constant bounds on computed slices", "", fmt.Sprintf("%d constant slice bounds / indexes on call results and field values examined", c.constBoundRule("T26", fns)), false)
 	// T21: a difference of two non-constant values that is used as a bound (or is unsigned) is taken only where the
 	// subtrahend is known to be no larger than the minuend
 	// (none on the present tree: the canary mutant C07-range-check-by-subtraction must fire)
